@@ -114,6 +114,7 @@ def run_C11(ctx):
     if "No error has been found" not in pout:
         raise ToolError("design check MCPipeline failed")
     pstats, pviol = p_pipeline.pipeline_check(ctx)
+    pstats["tlaps_obligations_proved"] = p_pipeline.tlaps_proof(ctx)
     violations += pviol
     by_check = {}
     for v in verdicts:
